@@ -366,7 +366,11 @@ impl Scenario for C17Bridge {
         let world = World::new(cx, "C17", OnPanic::Discard, &signs, false);
         // the lines the "ODK" will send
         let nlines = 1 + cx.draw(12);
-        let mut lines: Vec<(Vec<u8>, &'static str)> = Vec::new();
+        // per line: bytes, kind, and what the simulator knows about it independently of the
+        // decoder under test (Some(Some(frame)) = encodes this frame, possibly in lower / mixed
+        // case; Some(None) = certainly not a frame; None = no independent knowledge)
+        let mut lines: Vec<(Vec<u8>, &'static str, Option<Option<Frame<'static>>>)> = Vec::new();
+        let own = |f: Frame<'_>| -> Frame<'static> { Frame::new(f.address(), f.message_type(), gens::data(f.data().to_vec())) };
         // A shadow model steers the traffic so that the sign actually answers.
         let mut shadow = crate::models::sign::SignModel::new(signs[0].0, signs[0].1);
         for _ in 0..nlines {
@@ -374,22 +378,31 @@ impl Scenario for C17Bridge {
                 0..=3 => {
                     let m = aware_message(cx, &shadow);
                     let _ = shadow.step(&m);
-                    lines.push((Frame::from(m).to_bytes_with_newline(), "known"));
+                    let f = own(Frame::from(m));
+                    let mut l = f.to_bytes_with_newline();
+                    crate::scen::serial::recase(cx, &mut l);
+                    lines.push((l, "known", Some(Some(f))));
                 }
                 4 => {
                     let m = gens::raw_message(cx, &addrs);
                     let _ = shadow.step(&m);
-                    lines.push((Frame::from(m).to_bytes_with_newline(), "known-or-unknown"));
+                    let f = own(Frame::from(m));
+                    let mut l = f.to_bytes_with_newline();
+                    crate::scen::serial::recase(cx, &mut l);
+                    lines.push((l, "known-or-unknown", Some(Some(f))));
                 }
                 5 => {
                     if cx.chance(1, 3) {
                         // a frame terminated by a bare LF: an undecodable line of its own
                         let mut l = Frame::from(gens::raw_message(cx, &addrs)).to_bytes();
                         l.push(b'\n');
-                        lines.push((l, "bare-lf"));
+                        lines.push((l, "bare-lf", Some(None)));
                         cx.probe("undecodable_line_at_bridge");
                     } else {
-                        lines.push((gens::unknown_frame(cx).to_bytes_with_newline(), "unknown"));
+                        let f = gens::unknown_frame(cx);
+                        let mut l = f.to_bytes_with_newline();
+                        crate::scen::serial::recase(cx, &mut l);
+                        lines.push((l, "unknown", Some(Some(f))));
                     }
                 }
                 6 => {
@@ -400,7 +413,7 @@ impl Scenario for C17Bridge {
                         b'0' => b'1',
                         _ => b'0',
                     };
-                    lines.push((l, "bad-checksum-or-length"));
+                    lines.push((l, "bad-checksum-or-length", Some(None)));
                     cx.probe("undecodable_line_at_bridge");
                 }
                 _ => {
@@ -412,7 +425,9 @@ impl Scenario for C17Bridge {
                         }
                     }
                     g.extend_from_slice(b"\r\n");
-                    lines.push((g, "malformed"));
+                    // an empty or all-whitespace line is certainly not a frame
+                    let know = if g.iter().all(|b| b.is_ascii_whitespace()) { Some(None) } else { None };
+                    lines.push((g, "malformed", know));
                     cx.probe("undecodable_line_at_bridge");
                 }
             }
@@ -438,7 +453,7 @@ impl Scenario for C17Bridge {
             }
         };
         cx.set_nontrivial();
-        for (i, (line, kind)) in lines.iter().enumerate() {
+        for (i, (line, kind, know)) in lines.iter().enumerate() {
             let written_before = wire.lock().unwrap().written.len();
             let _ = take_history(&history);
             let r = odk.process_message();
@@ -449,7 +464,12 @@ impl Scenario for C17Bridge {
             let written = wire.lock().unwrap().written[written_before..].to_vec();
             cx.hash_event("line", &(i, *kind, r.is_ok(), h.len(), written.len()));
             cx.note(|| format!("line #{i} [{kind}] {:?} -> {:?}, bus called {} time(s), {} byte(s) written back", String::from_utf8_lossy(line), r.as_ref().map_err(|e| e.to_string()), h.len(), written.len()));
-            match Frame::from_bytes(line) {
+            let decoded: Result<Frame<'static>, ()> = match know {
+                Some(Some(f)) => Ok(f.clone()),
+                Some(None) => Err(()),
+                None => Frame::from_bytes(line).map(|f| Frame::new(f.address(), f.message_type(), gens::data(f.data().to_vec()))).map_err(|_| ()),
+            };
+            match decoded {
                 Ok(f) => {
                     if let Err(e) = &r {
                         cx.fail("C17/bridge-failed-on-valid-line", format!("line #{i} decodes, yet the bridge returned {e}"));
